@@ -763,7 +763,7 @@ def run(ctx):
     ctx.check_cases("yearmonth.year-partition", years, check_year_partition)
     import c18_chains
     ctx.check_cases("interval.chains (results of & and | used as operands; simultaneous iterations)",
-                    c18_chains.gen_cases(ctx, ctx.scale(450, 40_000)), c18_chains.check)
+                    c18_chains.gen_cases(ctx, ctx.scale(450, 20_000)), c18_chains.check)
     replies = {}
     for g, f in zip(groups, futures):
         replies.update(zip(g, f.result()))
